@@ -132,6 +132,10 @@ def check_exit(self, o):
             self.oblige(f"{sid}.raise_post{k}", st, self.spec_truth(p, pre_env, old=entry), p)
         return
     # normal exit
+    if c.ghost_stmts.get("exit"):
+        gs = State(dict(st.env), st.heap, st.pc, st.next_ref, st.ghost, st.labels)
+        self.ghost_exec(c.ghost_stmts["exit"], gs)
+        st.heap, st.ghost = gs.heap, gs.ghost
     self.covers.append((f"{c.qual}/exit.cover", list(st.pc)))
     res = o.value if o.kind == "return" and o.value is not None else none_val()
     if c.yield_seq:
@@ -268,6 +272,8 @@ def assign_target(self, target, v, st):
         if isinstance(obj, Val) and isinstance(obj.t, Obj):
             ft = self.reg.field_type(obj.t.cls, target.attr)
             if ft is None:
+                if self.lenient:
+                    return          # an attribute the contracts do not speak about (untracked)
                 raise Untranslatable(f"store to undeclared field {obj.t.cls}.{target.attr}")
             self.set_field(st, obj, target.attr, self.concretise(v, ft, st))
             return
